@@ -89,6 +89,7 @@ pub mod __ {
         panic,
         primitive::{bool, str, u8, usize},
         result::Result::{self, Err, Ok},
+        str::from_utf8,
         stringify,
     };
 }
